@@ -1,37 +1,81 @@
 #!/venv/bin/python
 """Re-evaluate every /verif/seeded/*/patch.diff against the current rules (overlay analysis, nothing executed)
-and record detected / detected_by in its meta.json.  Development-time tool; prints the catch matrix."""
-import glob, importlib, json, os, sys
+and record in its meta.json:
+  detected / detected_by            the seed's own property check reports a new finding
+  detected_by_other                 other properties' checks that report a new finding on the same change
+  analysis_error_on_mutant          the own check could not decide (exit 2 on that tree), not counted as detection
+`detected_at_import` (what the rules as they stood when the seed arrived said) is never touched.
+Development-time tool; prints the catch matrix.  refresh_seeded.py [Cnn|Cnn-N ...] [--no-cross]"""
+import glob, json, os, sys
+from concurrent.futures import ProcessPoolExecutor
 HERE = os.path.dirname(os.path.dirname(os.path.abspath(__file__)))
 sys.path.insert(0, HERE); sys.dont_write_bytecode = True
-from sa.core import report
-from sa.core.model import Program
 from sa import battery
-only = sys.argv[1:]
-base = Program()
-rows = []
-for d in sorted(glob.glob(os.path.join(HERE, "seeded", "C*"))):
-    name = os.path.basename(d); prop = name.split("-")[0]
-    if only and prop not in only and name not in only: continue
-    meta_p = os.path.join(d, "meta.json"); meta = json.load(open(meta_p))
-    if not os.path.exists(os.path.join(HERE, "sa", "rules", prop + ".py")):
-        rows.append((name, "no-rule", [])); continue
-    mod = importlib.import_module("sa.rules." + prop)
-    ctx0 = report.Ctx(prop, "quick", base)
-    try: mod.run(ctx0)
-    except Exception as e: print(name, "base run failed", e); continue
-    base_keys = {f.key for f in ctx0.findings}
-    ov = battery._overlay_from_patch(base, os.path.join(d, "patch.diff"))
-    if ov is None:
-        rows.append((name, "stale-patch", [])); meta["detected"] = None; meta["note"] = "patch no longer applies to /repo HEAD"
-    else:
-        ctx = report.Ctx(prop, "quick", Program(overlay=ov, base=base)); err = None
-        try: mod.run(ctx)
-        except report.AnalysisError as e: err = str(e)
-        new = sorted({f.key for f in ctx.findings} - base_keys)
-        meta["detected"] = bool(new); meta["detected_by"] = sorted({k.split("|")[0] for k in new}); meta["analysis_error_on_mutant"] = err
-        rows.append((name, "DETECTED" if new else ("error:" + err[:60] if err else "missed"), meta["detected_by"]))
-    json.dump(meta, open(meta_p, "w"), indent=1)
-for r in rows: print("%-8s %-12s %s" % (r[0], r[1], ",".join(r[2])))
-det = sum(1 for r in rows if r[1] == "DETECTED"); tot = sum(1 for r in rows if r[1] not in ("no-rule",))
-print(f"detected {det}/{tot} (with rule modules); {sum(1 for r in rows if r[1]=='no-rule')} seeds wait for a rule module")
+from sa.core.model import Program, repo_root
+
+args = [a for a in sys.argv[1:] if not a.startswith("--")]
+cross = "--no-cross" not in sys.argv
+ROOT = repo_root()
+PROPS = sorted(os.path.basename(p)[:-3] for p in glob.glob(os.path.join(HERE, "sa", "rules", "C*.py")))
+
+
+def main():
+    base = Program()
+    seeds = []
+    for d in sorted(glob.glob(os.path.join(HERE, "seeded", "C*"))):
+        name = os.path.basename(d); prop = name.split("-")[0]
+        if args and prop not in args and name not in args:
+            continue
+        seeds.append((name, prop, d))
+    jobs, meta = [], []
+    for p in PROPS:
+        jobs.append((p, f"sa.rules.{p}", None, ROOT)); meta.append((None, p))
+    overlays = {}
+    for name, prop, d in seeds:
+        ov = battery._overlay_from_patch(base, os.path.join(d, "patch.diff"))
+        overlays[name] = ov
+        if ov is None:
+            continue
+        touched = set(ov)
+        for p in (PROPS if cross else [prop]):
+            if p != prop:
+                # cheap pre-filter: a module that never names a touched file or its module path cannot change its verdict
+                txt = open(os.path.join(HERE, "sa", "rules", p + ".py")).read()
+                if not any(os.path.basename(t) in txt or t in txt or t[4:-3].replace("/", ".") in txt for t in touched):
+                    continue
+            jobs.append((p, f"sa.rules.{p}", ov, ROOT)); meta.append((name, p))
+    with ProcessPoolExecutor(16) as ex:
+        results = list(ex.map(battery._analyse, jobs, chunksize=2))
+    basekeys = {p: set(r["keys"]) for (n, p), r in zip(meta, results) if n is None}
+    per = {}
+    for (n, p), r in zip(meta, results):
+        if n is None:
+            continue
+        per.setdefault(n, {})[p] = (sorted(set(r["keys"]) - basekeys[p]), r["error"])
+    rows = []
+    for name, prop, d in seeds:
+        mp = os.path.join(d, "meta.json"); m = json.load(open(mp))
+        if overlays[name] is None:
+            m["detected"] = None; m["note"] = "patch no longer applies to /repo HEAD"
+            rows.append((name, "stale-patch", [], []))
+        else:
+            new, err = per[name].get(prop, ([], None))
+            m["detected"] = bool(new); m["detected_by"] = sorted({k.split("|")[0] for k in new}); m["analysis_error_on_mutant"] = err
+            others = sorted({k.split("|")[0] for p, (nw, e) in per[name].items() if p != prop for k in nw})
+            m["detected_by_other"] = others
+            rows.append((name, "DETECTED" if new else ("other" if others else ("error" if err else "missed")), m["detected_by"], others))
+        json.dump(m, open(mp, "w"), indent=1)
+    for r in rows:
+        print("%-8s %-9s %-28s %s" % (r[0], r[1], ",".join(r[2]), ("also: " + ",".join(r[3])) if r[3] else ""))
+    tot = len(rows)
+    own = sum(1 for r in rows if r[1] == "DETECTED"); oth = sum(1 for r in rows if r[1] == "other")
+    r1 = [r for r in rows if int(r[0].split("-")[1]) <= 3]; r2 = [r for r in rows if int(r[0].split("-")[1]) >= 4]
+    for lab, rs in (("round 1", r1), ("round 2", r2)):
+        if rs:
+            print(f"{lab}: own check {sum(1 for r in rs if r[1]=='DETECTED')}/{len(rs)}, only another property's check {sum(1 for r in rs if r[1]=='other')}, "
+                  f"undecided (analysis error) {sum(1 for r in rs if r[1]=='error')}, missed {sum(1 for r in rs if r[1]=='missed')}")
+    print(f"total: own {own}/{tot}, other-only {oth}")
+
+
+if __name__ == "__main__":
+    main()
